@@ -14,8 +14,12 @@ use vstd::prelude::*;
 use std::borrow::Borrow;
 use std::marker::PhantomData;
 use vstd::std_specs::cmp::{PartialEqSpec, PartialOrdSpec, OrdSpec};
+use vstd::std_specs::ops::{AddSpec, ShrSpec, ShlSpec};
+use vstd::std_specs::convert::FromSpec;
 //@recursor file=crates/oxidd-rules-bdd/src/recursor.rs
 verus! {
+// 64-bit platform (ASSUMED): the sat-count cache key reserves bit 63 of a NodeID for the edge tag
+global size_of usize == 8;
 
 // ---------- semantic view: plain BDD terms ----------
 pub enum Tree { Leaf(bool), Inner(u32, Box<Tree>, Box<Tree>) }
@@ -647,6 +651,101 @@ pub broadcast proof fn lemma_lpopped_id(ls: Tree, until: int)
     ensures #[trigger] lpopped(ls, until) == ls,
 {}
 pub broadcast group pick_lemmas { lemma_pick_follows_mk, lemma_pick_follows_leaf, lemma_pick_ok_top, lemma_pick_ok_mk, lemma_pick_ok_leaf, lemma_pick_ok_ok, lemma_lit_pol_mk, lemma_lit_pol_leaf, lemma_pick_ok_lpopped, lemma_pick_ok_step, lemma_lit_pol_lpopped_b, lemma_lpopped_mk, lemma_lpopped_id, lemma_lpopped_ok }
+
+// ---------- model counting (C12) ----------
+pub open spec fn pow2(k: nat) -> int decreases k { if k == 0 { 1 } else { 2 * pow2((k - 1) as nat) } }
+pub broadcast proof fn lemma_pow2_1() ensures #[trigger] pow2(1) == 2 { assert(pow2(0) == 1); }
+pub broadcast group count_lemmas { lemma_pow2_1 }
+/// abstract numeric value of a count
+pub trait NumView { spec fn nv(&self) -> int; }
+pub trait IsFloatingPoint { const MIN_EXP: i32; }
+pub trait SatCountNumber: Clone + From<u32> + std::ops::Add<Self, Output = Self> + std::ops::Shl<u32, Output = Self> + std::ops::Shr<u32, Output = Self> + IsFloatingPoint + NumView {}
+/// ASSUMED model of the number type: exact naturals, `>> k` is floor division by 2^k, `<< k` multiplication.
+/// (Checked for Saturating<u64|u128> and Natural within their representable range by Kani suite core_num.)
+pub open spec fn num_ok<N: SatCountNumber>() -> bool {
+    &&& N::obeys_add_spec()
+    &&& forall|a: N, b: N| #[trigger] a.add_req(b)
+    &&& forall|a: N, b: N| (#[trigger] a.add_spec(b)).nv() == a.nv() + b.nv()
+    &&& <N as ShrSpec<u32>>::obeys_shr_spec()
+    &&& forall|a: N, k: u32| #[trigger] a.shr_req(k)
+    &&& forall|a: N, k: u32| (#[trigger] a.shr_spec(k)).nv() == a.nv() / pow2(k as nat)
+    &&& <N as ShlSpec<u32>>::obeys_shl_spec()
+    &&& forall|a: N, k: u32| #[trigger] a.shl_req(k)
+    &&& forall|a: N, k: u32| (#[trigger] a.shl_spec(k)).nv() == a.nv() * pow2(k as nat)
+    &&& <N as FromSpec<u32>>::obeys_from_spec()
+    &&& forall|v: u32| (#[trigger] <N as FromSpec<u32>>::from_spec(v)).nv() == v as int
+    &&& forall|a: N, b: N| cloned(a, b) ==> #[trigger] a.nv() == #[trigger] b.nv()
+}
+/// what the recursion computes: terminal value `tv` for true, 0 for false, the mean of the children at inner nodes
+pub open spec fn scnt(t: Tree, tv: int) -> int decreases t {
+    match t {
+        Tree::Leaf(b) => if b { tv } else { 0 },
+        Tree::Inner(_, a, b) => (scnt(*a, tv) + scnt(*b, tv)) / 2,
+    }
+}
+pub broadcast proof fn lemma_scnt_mk(l: u32, a: Tree, b: Tree, tv: int)
+    ensures #[trigger] scnt(mk(l, a, b), tv) == (scnt(a, tv) + scnt(b, tv)) / 2 {}
+
+/// number of assignments to the levels k..n-1 that satisfy `t` (all levels of `t` are >= k): Shannon expansion on level k
+pub open spec fn cnt(t: Tree, k: int, n: int) -> int decreases n - k {
+    if k >= n { if t == Tree::Leaf(true) { 1 } else { 0 } }
+    else if t is Inner && top(t) == k { cnt(then_of(t), k + 1, n) + cnt(else_of(t), k + 1, n) }
+    else { 2 * cnt(t, k + 1, n) }
+}
+/// the value computed by the sat_count recursion with terminal value 2^(n-k+m) is 2^m times the number of satisfying
+/// assignments over levels k..n-1: every halving in the recursion is exact
+//@lemma name=lemma_scnt_is_count props=C12
+pub proof fn lemma_scnt_is_count(t: Tree, k: int, n: int, m: nat)
+    requires ok(t, n), 0 <= k <= n, t is Inner ==> k <= top(t),
+    ensures scnt(t, pow2((n - k + m) as nat)) == pow2(m) * cnt(t, k, n),
+    decreases n - k,
+{
+    if k >= n {
+        assert(t is Leaf);
+        assert(pow2(m) * 1 == pow2(m)) by (nonlinear_arith);
+        assert(pow2(m) * 0 == 0) by (nonlinear_arith);
+    } else {
+        assert(pow2((m + 1) as nat) == 2 * pow2(m));
+        let p = pow2((n - k + m) as nat);
+        assert((n - (k + 1) + (m + 1)) as nat == (n - k + m) as nat);
+        if t is Inner && top(t) == k {
+            let (a, b) = (then_of(t), else_of(t));
+            lemma_scnt_is_count(a, k + 1, n, (m + 1) as nat);
+            lemma_scnt_is_count(b, k + 1, n, (m + 1) as nat);
+            let (ca, cb) = (cnt(a, k + 1, n), cnt(b, k + 1, n));
+            assert(scnt(t, p) == (scnt(a, p) + scnt(b, p)) / 2);
+            assert(scnt(a, p) + scnt(b, p) == 2 * (pow2(m) * (ca + cb))) by (nonlinear_arith)
+                requires scnt(a, p) == (2 * pow2(m)) * ca, scnt(b, p) == (2 * pow2(m)) * cb;
+            assert(pow2(m) * cnt(t, k, n) == pow2(m) * (ca + cb));
+        } else {
+            lemma_scnt_is_count(t, k + 1, n, (m + 1) as nat);
+            let c = cnt(t, k + 1, n);
+            assert((2 * pow2(m)) * c == pow2(m) * (2 * c)) by (nonlinear_arith);
+        }
+    }
+}
+/// sat_count(vars) with terminal value 2^vars counts the satisfying assignments over `vars` variables exactly
+//@lemma name=lemma_sat_count_exact props=C12
+pub proof fn lemma_sat_count_exact(t: Tree, vars: int)
+    requires ok(t, vars), vars >= 0,
+    ensures scnt(t, pow2(vars as nat)) == cnt(t, 0, vars),
+{
+    lemma_scnt_is_count(t, 0, vars, 0);
+    assert(pow2(0) * cnt(t, 0, vars) == cnt(t, 0, vars)) by (nonlinear_arith) requires pow2(0) == 1;
+}
+pub broadcast proof fn lemma_sat_count_exact_b(t: Tree, vars: u32)
+    requires wf(t), #[trigger] below(t, vars as int),
+    ensures #[trigger] scnt(t, pow2(vars as nat)) == cnt(t, 0, vars as int),
+{
+    lemma_sat_count_exact(t, vars as int);
+}
+pub broadcast proof fn lemma_pow2_mul1(k: nat) ensures 1 * #[trigger] pow2(k) == pow2(k) {}
+pub broadcast group count_lemmas2 { lemma_sat_count_exact_b, lemma_pow2_mul1 }
+pub broadcast proof fn lemma_pow2_0(k: nat)
+    requires k == 0,
+    ensures #[trigger] pow2(k) == 1,
+{}
+pub broadcast group count_lemmas3 { lemma_pow2_0 }
 // ---------- structural view: complement-edge terms ----------
 /// a NODE: the single terminal ⊤ or an inner node with its two stored child EDGES
 pub enum CN { One, Inner(u32, Box<CE>, Box<CE>) }
@@ -899,6 +998,35 @@ pub broadcast proof fn lemma_cxor_id(c: CE, b: bool)
 pub broadcast group ce_tree { lemma_csem_tv, lemma_sem_mk, lemma_wf_mk, lemma_below_mk, lemma_tv_cmk, lemma_tv_ct, lemma_tv_props, lemma_tv_below,
     lemma_vsv_cmk, lemma_vsv_ct, lemma_vsv_props, lemma_vsv_below, lemma_cxor_id }
 pub broadcast group ce_leaf { lemma_tv_leaf }
+/// C12: with terminal value 2^vars the sat-count recursion yields exactly the number of satisfying assignments
+pub broadcast proof fn lemma_csat_count_exact(c: CE, vars: u32)
+    requires okc(c, vars as int),
+    ensures #[trigger] scnt(tv(c), pow2(vars as nat)) == cnt(tv(c), 0, vars as int),
+{ lemma_tv_props(c); lemma_tv_below(c, vars as int); lemma_sat_count_exact(tv(c), vars as int); }
+/// the expansion over the constructors only (no `csem` <-> `sem` bridge)
+pub broadcast group ce_tv { lemma_wf_mk, lemma_tv_cmk, lemma_tv_ct, lemma_tv_props, lemma_tv_leaf }
+// restrict (C04) at the level of edges: the cube is a plain BDD term (the expansion of the cube edge), the function an edge
+pub broadcast proof fn lemma_ccenv_leaf(c: CE, b: bool, env: Env)
+    requires cwf(c),
+    ensures #[trigger] csem(c, cenv(Tree::Leaf(b), env)) == csem(c, env),
+{ reveal(csem); lemma_tv_props(c); lemma_cenv_leaf(tv(c), b, env); }
+pub broadcast proof fn lemma_ccenv_skip(c: CE, l: u32, a: Tree, b: Tree, env: Env)
+    requires cwf(c), (l as int) < ctop(c),
+    ensures #[trigger] csem(c, cenv(mk(l, a, b), env)) == csem(c, cenv(next_cube(a, b), env)),
+{ reveal(csem); lemma_tv_props(c); lemma_cenv_skip(tv(c), l, a, b, env); }
+pub broadcast proof fn lemma_ccenv_same(n: bool, l: u32, t: CE, e: CE, l2: u32, a: Tree, b: Tree, env: Env)
+    requires cwf(cmk(n, l, t, e)), l == l2,
+    ensures #[trigger] csem(cmk(n, l, t, e), cenv(mk(l2, a, b), env)) == csem(if a != Tree::Leaf(false) { cxor(t, n) } else { cxor(e, n) }, cenv(next_cube(a, b), env)),
+{
+    reveal(csem); lemma_tv_props(cmk(n, l, t, e)); lemma_tv_cmk(n, l, t, e);
+    lemma_cenv_same(l, tv(cxor(t, n)), tv(cxor(e, n)), l2, a, b, env);
+}
+/// levels above the cube are not touched
+pub broadcast proof fn lemma_cenv_above(c: Tree, env: Env, i: int)
+    requires wf(c), i < top(c),
+    ensures #[trigger] cenv(c, env)(i) == env(i),
+{ lemma_cube_val_above(c, env, i); }
+pub broadcast group crestrict_lemmas { lemma_ccenv_leaf, lemma_ccenv_skip, lemma_ccenv_same, lemma_cenv_above, lemma_cube_val_above }
 /// different edges of normal-form diagrams denote different BDDs (contrapositive of injectivity), for `reduce`
 pub broadcast proof fn lemma_tv_neq(a: CE, b: CE)
     requires cwf(a), cwf(b), a != b,
@@ -1032,6 +1160,45 @@ pub proof fn add_vars_rec(c: CN, p: bool, n: int, e1: Env, e2: Env)
 }
 
 // ---------- environment stubs (ASSUMED manager contract) ----------
+pub type NodeID = usize;
+/// the node stored under a node id (ASSUMED: a node id denotes one node within a GC epoch; the sat-count cache is
+/// cleared by `clear_if_invalid` when the epoch or the variable count changes)
+pub uninterp spec fn node_of(id: NodeID) -> CN;
+/// the edge a sat-count cache key stands for: node id in the low 63 bits, complement tag in bit 63
+pub open spec fn key_edge(k: NodeID) -> CE { CE { neg: k >= 0x8000_0000_0000_0000, node: node_of((k % 0x8000_0000_0000_0000) as usize) } }
+pub broadcast proof fn lemma_key_bits(id: usize, t: usize)
+    requires id < 0x8000_0000_0000_0000, t <= 1,
+    ensures (#[trigger] (id | (t << 63usize))) % 0x8000_0000_0000_0000usize == id, ((id | (t << 63usize)) >= 0x8000_0000_0000_0000usize) == (t == 1),
+{
+    assert((id | (t << 63usize)) % 0x8000_0000_0000_0000usize == id && (((id | (t << 63usize)) >= 0x8000_0000_0000_0000usize) == (t == 1))) by (bit_vector)
+        requires id < 0x8000_0000_0000_0000usize, t <= 1usize;
+}
+/// stub of the HashMap inside SatCountCache
+pub struct NodeMap<N> { pub m: Ghost<Map<NodeID, N>> }
+impl<N> NodeMap<N> {
+    pub open spec fn view(&self) -> Map<NodeID, N> { self.m@ }
+    #[verifier::external_body]
+    pub fn get(&self, k: &NodeID) -> (r: Option<&N>)
+        ensures match r { Some(v) => self@.contains_key(*k) && *v == self@[*k], None => !self@.contains_key(*k) }
+    { unimplemented!() }
+    #[verifier::external_body]
+    pub fn insert(&mut self, k: NodeID, v: N) -> (r: Option<N>)
+        ensures final(self)@ == old(self)@.insert(k, v)
+    { unimplemented!() }
+}
+pub struct SatCountCache<N, S> { pub map: NodeMap<N>, pub cache_all: bool, pub s: Ghost<S> }
+impl<N: SatCountNumber, S> SatCountCache<N, S> {
+    /// ASSUMED (history): the cache is emptied when the GC epoch or the variable count changed; otherwise its entries were
+    /// computed in this epoch with the same variable count, i.e. with terminal value 2^vars (integer number types)
+    #[verifier::external_body]
+    pub fn clear_if_invalid<M: Manager>(&mut self, manager: &M, vars: LevelNo)
+        ensures cache_valid(final(self), pow2(vars as nat)), final(self).cache_all == old(self).cache_all,
+    { unimplemented!() }
+}
+/// every entry is the count of the edge its key stands for
+pub open spec fn cache_valid<N: SatCountNumber, S>(c: &SatCountCache<N, S>, tvv: int) -> bool {
+    forall|k: NodeID| #[trigger] c.map@.contains_key(k) ==> c.map@[k].nv() == scnt(tv(key_edge(k)), tvv)
+}
 pub type LevelNo = u32;
 pub type VarNo = u32;
 #[derive(Debug)]
@@ -1047,6 +1214,8 @@ pub trait Edge: Sized + Ord {
     type Tag: TagLike;
     spec fn cv(&self) -> CE;
     fn borrowed(&self) -> (r: Borrowed<'_, Self>) ensures r.cv() == self.cv();
+    /// ASSUMED: node ids leave the most significant bit free ("MSB of NodeIDs is reserved") and identify the node, not the tag
+    fn node_id(&self) -> (r: NodeID) ensures r < 0x8000_0000_0000_0000, self.cv().node is Inner ==> node_of(r) == self.cv().node;
     fn tag(&self) -> (t: Self::Tag) ensures t.is_c() == neg(self.cv());
     fn with_tag(&self, tag: Self::Tag) -> (r: Borrowed<'_, Self>) ensures r.cv() == cwith(self.cv(), tag.is_c());
     fn with_tag_owned(self, tag: Self::Tag) -> (r: Self) ensures r.cv() == cwith(self.cv(), tag.is_c());
@@ -1075,6 +1244,7 @@ pub trait InnerNode<E: Edge>: Sized + LevelSpec {
     fn child(&self, n: usize) -> (r: Borrowed<'_, E>)
         requires n < 2
         ensures r.cv() == (if n == 0 { self.then_c() } else { self.else_c() });
+    fn ref_count(&self) -> usize;
     fn children(&self) -> (r: ChildIter<'_, E>)
         ensures r.a is Some, r.b is Some, r.a->Some_0.cv() == self.then_c(), r.b->Some_0.cv() == self.else_c();
 }
@@ -1767,7 +1937,7 @@ where M: Manager<EdgeTag = EdgeTag, Terminal = BCDDTerminal> + HasApplyCache<M, 
 mod apply_rec_r {
 use super::*;
 use super::apply_rec::*;
-broadcast use {ce_core, ce_tree, restrict_lemmas, subst_lemmas};
+broadcast use {ce_core, ce_tv, crestrict_lemmas};
 //@item file=crates/oxidd-rules-bdd/src/complement_edge/apply_rec.rs path=fn:restrict/enum:InnerResult rename=restrict__InnerResult
 //@end
 // The body of `restrict::inner` uses a labelled block (`let (f, complement) = 'ret_f: { .. break 'ret_f (f, f_neg); .. (f, f_neg) };
@@ -1805,13 +1975,19 @@ where M: Manager<EdgeTag = EdgeTag, Terminal = BCDDTerminal> + HasApplyCache<M, 
     requires edge_ok::<M::Edge>(), okc(root.cv(), manager.num_levels_spec()), okc(vars.cv(), manager.num_levels_spec()),
     ensures res is Ok ==> restrict_post(root.cv(), vars.cv(), manager.num_levels_spec(), res->Ok_0.cv()),
 //@end
+} // mod apply_rec_r
+
+mod apply_rec_s {
+use super::*;
+use super::apply_rec::*;
+broadcast use {ce_core, ce_tree, subst_lemmas};
 //@fn file=crates/oxidd-rules-bdd/src/complement_edge/apply_rec.rs path=fn:substitute nodecr expect=R5:1,R11:1 props=C04,C06 vis=pub
 //@spec
     requires edge_ok::<M::Edge>(), okc(f.cv(), manager.num_levels_spec()), all_ok(subst@, manager.num_levels_spec()),
         eviews(subst@) == subst_of(cache_id),
     ensures res is Ok ==> subst_post(f.cv(), eviews(subst@), manager.num_levels_spec(), res->Ok_0.cv()),
 //@end
-} // mod apply_rec_r
+} // mod apply_rec_s
 
 mod apply_rec_p {
 use super::*;
@@ -1864,6 +2040,26 @@ where M: Manager<EdgeTag = EdgeTag, Terminal = BCDDTerminal> + HasApplyCache<M, 
     ensures res is Ok ==> pick_ok(tv(edge.cv()), tv(literal_set.cv()), tv(res->Ok_0.cv())) && okc(res->Ok_0.cv(), manager.num_levels_spec()),
 //@end
 } // mod apply_rec_p
+
+mod apply_rec_c {
+use super::*;
+broadcast use {ce_core, ce_tv, count_lemmas, count_lemmas2, count_lemmas3, lemma_scnt_mk, lemma_key_bits, lemma_csat_count_exact};
+//@fn file=crates/oxidd-rules-bdd/src/complement_edge/apply_rec.rs path=impl:BooleanFunction~for~BCDDFunction<F>/fn:sat_count_edge/fn:inner rename=sat_count_edge__inner expect=R13:1 props=C12
+//@header
+fn sat_count_edge__inner<M: Manager<EdgeTag = EdgeTag, Terminal = BCDDTerminal>, N: SatCountNumber, S>(manager: &M, e: Borrowed<M::Edge>, terminal_val: &N, cache: &mut SatCountCache<N, S>) -> (res: N)
+//@spec
+    requires num_ok::<N>(), cwf(e.cv()), cache_valid(old(cache), terminal_val.nv()),
+    ensures res.nv() == scnt(tv(e.cv()), terminal_val.nv()), cache_valid(final(cache), terminal_val.nv()), final(cache).cache_all == old(cache).cache_all,
+    decreases u32::MAX as int - ctop(e.cv()),
+//@end
+//@fn file=crates/oxidd-rules-bdd/src/complement_edge/apply_rec.rs path=impl:BooleanFunction~for~BCDDFunction<F>/fn:sat_count_edge hoist=inner>sat_count_edge__inner props=C12
+//@header
+fn sat_count_edge<M: Manager<EdgeTag = EdgeTag, Terminal = BCDDTerminal>, N: SatCountNumber, S>(manager: &M, edge: &M::Edge, vars: LevelNo, cache: &mut SatCountCache<N, S>) -> (res: N)
+//@spec
+    requires num_ok::<N>(), N::MIN_EXP == 0, okc(edge.cv(), vars as int),
+    ensures res.nv() == cnt(tv(edge.cv()), 0, vars as int),
+//@end
+} // mod apply_rec_c
 } // mod complement_edge
 } // verus!
 fn main() {}
